@@ -167,18 +167,19 @@ type runConfig struct {
 }
 
 type runResult struct {
-	obls         []*Obligation
-	errors       []string
-	funcs        []string
-	engine       *Engine
-	wall         float64
-	lemmas       []*Obligation
-	assumed      []string
-	solverSec    float64
-	sel          selection
-	bounded      []*boundedResult
-	fnsByKey     map[string]*ssa.Function
-	uncontracted []string // exported functions of the property's anchor files that carry no contract
+	obls           []*Obligation
+	errors         []string
+	funcs          []string
+	engine         *Engine
+	wall           float64
+	lemmas         []*Obligation
+	assumed        []string
+	solverSec      float64
+	sel            selection
+	bounded        []*boundedResult
+	fnsByKey       map[string]*ssa.Function
+	uncontracted   []string // exported functions of the property's anchor files that carry no contract
+	droppedHelpers []string // `helper` contracts whose function no longer exists (callers verified against the inlined code)
 }
 
 func hasProp(c *Contract, props []string) bool {
@@ -251,6 +252,14 @@ func run(cfg runConfig) (*runResult, error) {
 		}
 		fn, ok := fns[k]
 		if !ok {
+			fname := k[strings.LastIndex(k, "::")+2:]
+			if i := strings.LastIndex(fname, "."); i >= 0 {
+				fname = fname[i+1:]
+			}
+			if c.Helper && fname != "" && !(fname[0] >= 'A' && fname[0] <= 'Z') {
+				res.droppedHelpers = append(res.droppedHelpers, shortKeyName(k))
+				continue
+			}
 			res.errors = append(res.errors, fmt.Sprintf("contract %s (%s) binds to no function", k, c.Source))
 			continue
 		}
